@@ -30,6 +30,9 @@ type KerxSubtable struct {
 
 // check and return the subtable length
 func (ks *KerxSubtable) parseEnd(src []byte, _ int) (int, error) {
+	if ks.length < 12 { // the length includes the header: a smaller value would not advance in the table
+		return 0, fmt.Errorf("invalid kerx subtable length %d", ks.length)
+	}
 	if L := len(src); L < int(ks.length) {
 		return 0, fmt.Errorf("EOF: expected length: %d, got %d", ks.length, L)
 	}
@@ -74,7 +77,7 @@ func (kd *KerxData0) parseEnd(src []byte, tupleCount int) (int, error) {
 			if L, E := len(src), int(uint16(pair.Value))+2; L < E {
 				return 0, fmt.Errorf("EOF: expected length: %d, got %d", E, L)
 			}
-			kd.Pairs[i].Value = int16(binary.BigEndian.Uint16(src[pair.Value:]))
+			kd.Pairs[i].Value = int16(binary.BigEndian.Uint16(src[uint16(pair.Value):]))
 		}
 	}
 	return len(src), nil
